@@ -29,6 +29,15 @@ theorem C03_include_never_out_of_fuel (ti : TyInfo) (funcs : List CP) (cannot0 :
     · simp
     · simp
 
+/-- the loop that drops unused providers (`eliminateUnused`, called from `pruneStages` with exactly this
+    fuel) has used up its work list before the fuel: more fuel gives the same chain.  (Each step takes one
+    entry off the work list; eliminating a provider -- at most once each -- puts its `uses` on it.) -/
+theorem C03_unused_elimination_fuel_is_enough (ch : Chain) (extra : Nat) :
+    eliminateUnused (ch.length + (ch.map (·.uses.length)).sum + 8 + extra) (List.range ch.length) ch
+      = eliminateUnused (ch.length + (ch.map (·.uses.length)).sum + 8) (List.range ch.length) ch := by
+  have := elimMeasure_range_le ch
+  exact eliminateUnused_fuel _ _ _ _ (by omega) (by omega)
+
 /-- the measure argument is not vacuous: a chain of two providers where the second cannot be satisfied
     needs a second pass -/
 example : (match validate true (providesReturns stdTyInfo (initState
